@@ -74,9 +74,15 @@ Definition sort_rows (l : list row) : list row := msort (fun a b => Z.leb (row_i
 (* state: slots and the "levels still agree" flag *)
 Definition state : Type := (slots * bool)%type.
 
+(* ops 20..25 are ops 0..5 on FrequentItemsSketch<String> (harness/src/freq.rs): the model keys a
+   String item by the id the generator gave it and gets the hash of its bytes + 0xff; the argument
+   positions are those of the i64 ops (the item's bytes follow and are ignored here) *)
+Definition norm_code (code : Z) : Z := if (20 <=? code) && (code <=? 25) then code - 20 else code.
+
 Definition step (st0 : state) (o : zop) : state * list Z :=
   let '(st, good) := st0 in
-  let '(code, a) := o in
+  let '(code0, a) := o in
+  let code := norm_code code0 in
   let a0 := nth 0 a 0 in let a1 := nth 1 a 0 in let a2 := nth 2 a 0 in let a3 := nth 3 a 0 in
   let fail := ((st, false), BAD) in
   let out (st' : slots) (ok : bool) (ob : list Z) : state * list Z :=
@@ -264,7 +270,8 @@ Definition bracket_ok (t lb ub err : N) : bool := ((lb <=? t) && (t <=? ub) && (
 
 Fixpoint prop_from (st : ostate) (ops : list zop) (obs : list (list Z)) : bool :=
   match ops, obs with
-  | (code, a) :: r, ob :: obr =>
+  | (code0, a) :: r, ob :: obr =>
+      let code := norm_code code0 in
       let a0 := nth 0 a 0 in let a1 := nth 1 a 0 in let a2 := nth 2 a 0 in let a3 := nth 3 a 0 in
       if list_eqb Z.eqb ob PANIC then true else
       match code with
